@@ -222,6 +222,7 @@ func (r *Router) Start() {
 			return
 		}
 
+		verifAt("router.identityReceived", r, dst, c)
 		// Reject incoming connections from invalid peers
 		if !r.isPeerValid(dst) {
 			log.Errorf("rejecting incoming connection from %v: invalid peer %v",
@@ -271,6 +272,7 @@ func (r *Router) Stop() error {
 	}
 	// wait for all handleConn to finish
 	r.Unlock()
+	verifAt("router.closedSet", r)
 	r.wg.Wait()
 
 	if err != nil {
@@ -369,6 +371,7 @@ func (r *Router) connect(si *ServerIdentity) (Conn, uint64, error) {
 		return nil, sentLen, xerrors.Errorf("sending: %v", err)
 	}
 
+	verifAt("router.connected", r, si, c)
 	if err = r.registerConnection(si, c); err != nil {
 		return nil, sentLen, xerrors.Errorf("register connection: %v", err)
 	}
